@@ -2,6 +2,7 @@
 //! hooks on) on generated cases and writes (a) Coq case files evaluated against the Gallina model
 //! and (b) a JSON-lines file for the exact-rational oracles.
 mod util;
+mod c17;
 mod polys;
 mod c19;
 mod flat;
@@ -40,6 +41,7 @@ fn main() {
                 "C11" => polys::run_c11(seed, n, out),
                 "C12" => polys::run_c12(seed, n, out),
                 "C20" => polys::run_c20(seed, n, out),
+                "C17" => c17::run(seed, n, out),
                 _ => { eprintln!("unknown property {}", prop); std::process::exit(2) }
             }
         }
@@ -58,7 +60,13 @@ fn main() {
             "C11" => polys::replay_c11(&args[3..]),
             "C12" => polys::replay_c12(&args[3..]),
             "C20" => polys::replay_c20(&args[3..]),
+            "C17" => c17::replay(&args[3..]),
             _ => { eprintln!("unknown property"); std::process::exit(2) }
+        },
+        // exhaustive-ish searches used while building a check (not part of any registered command)
+        "search" => match args[2].as_str() {
+            "C17" => c17::search(args[3].parse().unwrap(), args[4].parse().unwrap(), args.len() > 5 && args[5] == "underflow"),
+            _ => std::process::exit(2),
         },
         _ => std::process::exit(2),
     }
